@@ -44,3 +44,30 @@ func VerifC05Nested() {
 	verif.Assert("C05/nested/wire=reference-mapping", verif.JEqual(data, want))
 	verif.Reach("C05/nested/decided")
 }
+
+// VerifC05ResponsePath: the server response path encodes an annotated top-level message
+// through its generated codec for every request content type that selects JSON: JSON itself,
+// an absent header, a parameterised or differently-cased JSON type, and unrecognised types
+// (which the server answers in JSON).
+func VerifC05ResponsePath() {
+	m := &Int64Msg{Big: verif.Int64("big"), Name: verif.String("name", 2), Plain: verif.Int64("plain")}
+	hdr := http.Header{}
+	switch verif.Choice("contentType", 6) {
+	case 0:
+		hdr["Content-Type"] = []string{"application/json"}
+	case 1: // absent
+	case 2:
+		hdr["Content-Type"] = []string{"application/json; charset=utf-8"}
+	case 3:
+		hdr["Content-Type"] = []string{"text/plain"}
+	case 4:
+		hdr["Content-Type"] = []string{"application/x-www-form-urlencoded"}
+	default:
+		hdr["Content-Type"] = []string{"Application/JSON"}
+	}
+	r := &http.Request{Method: "POST", Header: hdr, URL: &url.URL{Path: "/int64"}}
+	data, err := marshalResponse(r, m)
+	verif.Assert("C05/response-path/marshal-ok", err == nil)
+	verif.Assert("C05/response-path/wire=reference-mapping-for-every-json-selecting-content-type", verif.JEqual(data, refInt64Msg(m)))
+	verif.Reach("C05/response-path/decided")
+}
